@@ -492,6 +492,28 @@ void vf_harness(void) { Set_notIn(); VF_CANARY(); }
 )
 UNITS += [notin_unit]
 
+# ---- hash(const String&) / hash(const Array<byte>&): the bucket choice of every String-keyed HashMap / HashDic / Set<String>: defined for EVERY key (no signed overflow on long keys)
+def hash_unit(name, loc, what):
+    return Unit(
+        name, 'C02',
+        cuts=[Cut('h', HM, loc, rules=[(r'const char\* p = s;', 'const char* p = s_p;', None), (r'const byte\* p = s\.data\(\);', 'const byte* p = (const byte*)s_p;', None), (r'\bs\.length\(\)', 's_len', None)])],
+        text=PRE + r'''
+#define NK 12
+int hash_key(const char* s_p, int s_len)
+__CPROVER_requires(0 <= s_len && s_len <= NK && __CPROVER_is_fresh(s_p, NK + 1))
+__CPROVER_ensures(1)
+__CPROVER_assigns()
+@@h@@
+void vf_harness(void) { const char* s; int n; hash_key(s, n); VF_CANARY(); }
+''',
+        entry='hash_key', unwind=14, kind='bounded', bound='keys of 0..12 bytes (any bytes): long enough for 33^n to pass 2^31 several times over',
+        desc=what + ': computed without undefined behaviour (no signed overflow) for every key, long ones included; reads only the key',
+        functions=[what],
+    )
+hash_string = hash_unit('HashMap_hash_String', r'^inline int hash\(const String& s\)\s*$', 'hash(const String&)')
+hash_bytes = hash_unit('HashMap_hash_bytes', r'^inline int hash\(const Array<byte>& s\)\s*$', 'hash(const Array<byte>&)')
+UNITS += [hash_string, hash_bytes]
+
 # replay: the units verify single operations on ghost-shaped states (one bucket chain, a sorted array); the native counterpart is the driver's small-scope
 # exhaustive search over operation sequences on colliding keys
 for _u in UNITS:
